@@ -561,8 +561,16 @@ func (r *Reader) fixErrCorruptedBH(bh blockHandle, err error) error {
 
 func (r *Reader) readRawBlock(bh blockHandle, verifyChecksum bool) ([]byte, error) {
 	data := r.bpool.Get(int(bh.length + blockTrailerLen))
-	if _, err := r.reader.ReadAt(data, int64(bh.offset)); err != nil && err != io.EOF {
+	n, err := r.reader.ReadAt(data, int64(bh.offset))
+	if err != nil && err != io.EOF {
 		return nil, err
+	}
+	if n < len(data) {
+		// The block reaches beyond the end of the file. The rest of the
+		// buffer holds whatever its previous user left there, possibly a
+		// valid block: do not look at it.
+		r.bpool.Put(data)
+		return nil, r.newErrCorruptedBH(bh, "block reaches beyond the end of the file")
 	}
 
 	if verifyChecksum {
